@@ -1,7 +1,7 @@
 package main
 
 import (
-	"bufio"
+	"bytes"
 	"encoding/json"
 	"fmt"
 	"math/rand"
@@ -22,10 +22,37 @@ func init() { checks["C08"] = checkC08 }
 
 // child is one cbtemulator process (built from /repo's working tree with -tags verif) on a data directory.
 type child struct {
-	cmd  *exec.Cmd
-	addr string
-	srv  *bt.Server
-	out  *strings.Builder
+	cmd    *exec.Cmd
+	addr   string
+	srv    *bt.Server
+	out    *lineWriter   // stdout
+	errOut *bytes.Buffer // stderr (complete once the process has exited)
+	exited chan struct{} // closed when the process has been waited for
+}
+
+// lineWriter collects a process's standard output and signals when the emulator announces that it is serving.
+type lineWriter struct {
+	mu    sync.Mutex
+	buf   bytes.Buffer
+	ready chan struct{}
+	once  sync.Once
+}
+
+func (w *lineWriter) Write(p []byte) (int, error) {
+	w.mu.Lock()
+	w.buf.Write(p)
+	up := bytes.Contains(w.buf.Bytes(), []byte("emulator running on"))
+	w.mu.Unlock()
+	if up {
+		w.once.Do(func() { close(w.ready) })
+	}
+	return len(p), nil
+}
+
+func (w *lineWriter) String() string {
+	w.mu.Lock()
+	defer w.mu.Unlock()
+	return w.buf.String()
 }
 
 func freePort() int {
@@ -39,39 +66,34 @@ func freePort() int {
 
 // startChild launches the emulator; crashAt = "<hook point>#<n>" makes it SIGKILL itself at the n-th hit of that point.
 func startChild(dir, crashAt string, parents []string) (*child, error) {
+	// the port is chosen by asking the kernel for a free one and closing it again; another process may take it
+	// in between (many children are started in parallel): try again with another port then
+	for attempt := 0; ; attempt++ {
+		c, err := startChildOnce(dir, crashAt, parents)
+		if err != nil && attempt < 8 && strings.Contains(err.Error(), "address already in use") {
+			continue
+		}
+		return c, err
+	}
+}
+
+func startChildOnce(dir, crashAt string, parents []string) (*child, error) {
 	port := freePort()
 	cmd := exec.Command(verifRoot+"/bin/cbtemulator", "-host", "127.0.0.1", "-port", fmt.Sprint(port), "-dir", dir)
 	cmd.Env = append(os.Environ(), "VERIF_CRASH_AT="+crashAt)
-	stdout, err := cmd.StdoutPipe()
-	if err != nil {
-		return nil, err
-	}
-	c := &child{cmd: cmd, addr: fmt.Sprintf("127.0.0.1:%d", port), out: &strings.Builder{}}
-	cmd.Stderr = nil
+	c := &child{cmd: cmd, addr: fmt.Sprintf("127.0.0.1:%d", port), out: &lineWriter{ready: make(chan struct{})}, errOut: &bytes.Buffer{}, exited: make(chan struct{})}
+	cmd.Stdout, cmd.Stderr = c.out, c.errOut
 	if err := cmd.Start(); err != nil {
 		return nil, err
 	}
-	ready := make(chan bool, 1)
-	go func() {
-		sc := bufio.NewScanner(stdout)
-		for sc.Scan() {
-			line := sc.Text()
-			c.out.WriteString(line + "\n")
-			if strings.Contains(line, "emulator running on") {
-				ready <- true
-			}
-		}
-		ready <- false
-	}()
+	go func() { _ = cmd.Wait(); close(c.exited) }()
 	select {
-	case ok := <-ready:
-		if !ok {
-			_ = cmd.Wait()
-			return nil, fmt.Errorf("emulator exited during start-up: %s", c.out.String())
-		}
+	case <-c.out.ready:
+	case <-c.exited:
+		return nil, fmt.Errorf("emulator exited during start-up: %s %s", c.out.String(), c.errOut.String())
 	case <-time.After(20 * time.Second):
 		_ = cmd.Process.Kill()
-		_ = cmd.Wait()
+		<-c.exited
 		return nil, fmt.Errorf("emulator did not come up within 20 s")
 	}
 	srv, err := bt.Connect(c.addr)
@@ -91,11 +113,16 @@ func (c *child) kill() {
 		c.srv.Close()
 	}
 	_ = c.cmd.Process.Signal(syscall.SIGKILL)
-	_ = c.cmd.Wait()
+	<-c.exited
 }
 
 func (c *child) alive() bool {
-	return c.cmd.ProcessState == nil && c.cmd.Process.Signal(syscall.Signal(0)) == nil
+	select {
+	case <-c.exited:
+		return false
+	default:
+		return true
+	}
 }
 
 // crash program: ops, with a plan of where to kill
@@ -377,7 +404,13 @@ func checkC08(c *Ctx) {
 			}
 		}
 		if again == 0 {
-			c.Inconclusive("C08: program %d was rejected at step %d (%s) but two re-executions were accepted", r.Tr, r.I, r.Ev)
+			pt := ""
+			for _, e := range traces[r.Tr-1] {
+				if e.I == r.I && e.Ev == r.Ev {
+					pt = e.Point
+				}
+			}
+			c.Inconclusive("C08: program %d was rejected at step %d (%s %s: %s) but two re-executions were accepted", r.Tr, r.I, r.Ev, pt, r.Why)
 			continue
 		}
 		var ev *bt.Op
